@@ -2,7 +2,7 @@ use std::collections::{HashMap, HashSet};
 
 use super::{
     parser::{ColumnName, ObjSense, RowName},
-    to_mps::{CONSTR_PREFIX, OBJ_NAME, VAR_PREFIX},
+    to_mps::{CONSTR_PREFIX, VAR_PREFIX},
     Mps, MpsParseError,
 };
 use crate::v1;
@@ -109,7 +109,9 @@ fn parse_id_tag(prefix: &str, name: &str) -> Option<u64> {
 fn convert_objective(mps: &Mps, name_id_map: &HashMap<ColumnName, u64>) -> v1::Function {
     let Mps { b, c, .. } = mps;
     let terms = convert_terms(c, name_id_map);
-    let mut constant = b.get(&OBJ_NAME.into()).copied().unwrap_or_default();
+    // The RHS of the objective row gives the (negated) constant of the objective.
+    // The row is named by the file (first `N` row), not necessarily `OBJ`.
+    let mut constant = b.get(&mps.objective_name).copied().unwrap_or_default();
     if constant != 0.0 {
         constant = -constant;
     }
